@@ -1032,6 +1032,9 @@ def run(facts, res):
     r62b(facts, res)
     r63(facts, res)
     r612(facts, res)
+    # the cost buckets: a neighbour of ANY permitted cost (1..255) has a bucket to go to (= R7.5, judged here for 'all token-cost functions')
+    import c07
+    c07.r75(facts, res, 'R6.13')
     r64(facts, res)
     r65(facts, res)
     r66(facts, res)
